@@ -44,7 +44,7 @@ Definition session (E : env) (g : generator) (p : pkginfo) (tys : list tyinfo) :
 (* "call for every type of the list" (dispatch has been done by Determinism) *)
 Definition env_all : env := {|
   e_fmt := fun _ => None; e_sum_load := fun _ => []; e_sum_bytes := fun _ => [];
-  e_enabled := fun _ _ _ => true; e_order := fun _ l => l; e_fixed := true |}.
+  e_enabled := fun _ _ _ => true; e_order := fun _ l => l; e_rm_rank := fun _ _ => 0; e_fixed := true |}.
 
 Fixpoint find_ty (n : bytes) (tys : list tyinfo) : option tyinfo :=
   match tys with
